@@ -511,6 +511,18 @@ def run_config(c, ci, cfg, n_seeds, families, state, use_fori=True):
       post = [feat_json(p[2][i, 0], p[3][i, 0]) for p in out['proj'] for i in range(p[0].shape[0]) if not np.any(np.isnan(p[0][i, 0]))]
       proj_reqs.append({'op': 'project', 'zero': fkey1(0.0, runner.fdtype), 'one': fkey1(1.0, runner.fdtype), 'pre': pre})
       proj_real.append((case, post))
+  # the specification IsTopK (c19_topk, c19_isTopKB_iff) on the REAL result against everything the real
+  # score function was asked (+ the seed pool of the variant of this tree)
+  top_reqs = []
+  for (case, out, params, pf, batches, prior_entries, fam) in metas:
+    ph = fkey1(-np.inf, runner.fdtype)
+    allv = [e for b in batches for e in b]
+    if pf is not None and c.flags.get('priorsEnterBest'):
+      nvalid = min(req_valid(pf))
+      allv = allv + [dict(e, r=(e['r'] if i < nvalid else ph)) for i, e in enumerate(prior_entries)]
+    zf = {'c': [fkey1(0.0, runner.fdtype)] * runner.ncp, 'k': [0] * runner.nkp, 'r': ph}
+    top_reqs.append({'op': 'istopk', 'count': cfg.count, 'all': allv + [zf] * cfg.count, 'res': result_entries(out)})
+  tops = c.lean('C19', top_reqs)
   checks = c.lean('C19', chk_reqs)
   projs = c.lean('C19', proj_reqs) if proj_reqs else []
   for (case, post), m in zip(proj_real, projs):
@@ -518,9 +530,9 @@ def run_config(c, ci, cfg, n_seeds, families, state, use_fori=True):
       bad = next((i for i, (a, b) in enumerate(zip(m.get('post', []), post)) if a != b), None)
       c.tie_break('eagle projection (clip 0 1)', dict(case, first_diff=bad), post[bad] if bad is not None else None,
                   m.get('post', [None])[bad] if bad is not None else m)
-  for (case, out, params, pf, batches, prior_entries, fam), m, chk in zip(metas, models, checks):
-    if 'error' in m or 'error' in chk:
-      raise core.InfraError('driver: %s %s' % (m.get('error'), chk.get('error')))
+  for (case, out, params, pf, batches, prior_entries, fam), m, chk, top in zip(metas, models, checks, tops):
+    if 'error' in m or 'error' in chk or 'error' in top:
+      raise core.InfraError('driver: %s %s %s' % (m.get('error'), chk.get('error'), top.get('error')))
     cfgc = runner.cfg
     real = [entry_tuple(e) for e in result_entries(out)]
     mres = [entry_tuple(e) for e in m['res']]
@@ -606,6 +618,11 @@ def run_config(c, ci, cfg, n_seeds, families, state, use_fori=True):
           i, float(out['rewards'][i]), float(resc[i]), out['cont'][i, 0].tolist(), out['cat'][i, 0].tolist(), total_evals, n_above, cfgc.count),
                   dict(case, candidate=i))
       break
+    # the returned candidates are a top-`count` selection of what was evaluated
+    if not top['isTopK']:
+      c.prop_fail('result-not-top-count-of-evaluated',
+                  'the returned (features, reward) pairs are not `count` of the evaluated pairs (with multiplicity) dominating the rest: returned rewards %s' % (
+                      out['rewards'].tolist(),), case)
     # theorem c19_no_placeholder on the real result
     if n_above >= cfgc.count and any(e[2] <= ph for e in real):
       c.prop_fail('placeholder-despite-enough-evaluations', 'at least count evaluations rank above -inf but an entry of reward <= -inf was returned', case)
